@@ -118,7 +118,7 @@ func VEmit() {
 			for i := 0; i < v11M; i++ {
 				match = vrt.Or(match, vrt.All(okI[i], rank[i] == got, v == vrt.UF1("F", i), vrt.Now() >= (i+1)*freq))
 			}
-			vrt.Assert("emit.sequence-and-pace", vrt.Or(match, got >= v11M-1))
+			vrt.Assert("emit.sequence-and-pace", vrt.Or(match, calls > v11M)) // only indices below v11M are tabulated
 			got++
 			if got == 2 {
 				vrt.Cover("emit.two-values")
@@ -135,7 +135,7 @@ func VEmit() {
 			for i := 0; i < v11M; i++ {
 				match = vrt.Or(match, vrt.All(!okI[i], i-rank[i] == gote, err == error(v11err{i})))
 			}
-			vrt.Assert("emit.errors-in-order", vrt.Or(match, gote >= v11M-1))
+			vrt.Assert("emit.errors-in-order", vrt.Or(match, calls > v11M))
 			gote++
 		}
 	})
